@@ -93,7 +93,11 @@ class ExecGen:
         if k == "chain":
             # a long component chain, with or without blanks around `%`; nothing in it is a call
             sep = ch.choice(["%", " % ", "% ", " %"])
-            return sep.join([ch.choice(s.chain_objs)] + ["next"] * ch.choice([1, 3, 8, 13]) + ["v"])
+            # (long chains only at the top of an expression and with blanks, so that the line can be continued)
+            n = ch.choice([1, 3, 8, 13]) if depth == 0 else ch.choice([1, 2])
+            if n > 3 and sep == "%":
+                sep = " % "
+            return sep.join([ch.choice(s.chain_objs)] + ["next"] * n + ["v"])
         if k == "lit":
             return ch.choice(["1", "2", "3", "10"])
         if k == "var":
@@ -161,10 +165,12 @@ class ExecGen:
             if ty == "mid_t":
                 cands.append((f"{nm}%inner", "inner_t"))
         chain, ty = ch.choice(cands)
-        self.calls.add(f"{ty}%run")
+        # (a binding may be named like an intrinsic procedure: `call v%size()` is a call of the binding)
+        bname = ch.choice(["run", "run", "size", "write"]) if "intrinsic_named_bindings" not in self.excl else "run"
+        self.calls.add(f"{ty}%{bname}")
         self.forms.add("type-bound-call")
         sp = ch.choice(["%", " % "])
-        return "call " + chain.replace("%", sp) + sp + "run" + ch.choice(["()", "", " ()"])
+        return "call " + chain.replace("%", sp) + sp + bname + ch.choice(["()", "", " ()"])
 
     def call_stmt(self):
         ch, s = self.ch, self.s
@@ -492,8 +498,8 @@ def gen_model(ch: Chooser, excl=(), assoc_from_unused_procs=False, assoc_pool=No
     def bound_type(name, comps, impl):
         return {"d": "type", "name": name, "abstract": False, "extends": None, "access": None, "access_how": "attr",
                 "sequence": False, "private_comps": False, "comps": comps, "private_binds": False, "finals": [], "doc": None,
-                "binds": [{"name": "run", "target": impl, "generic": False, "deferred": False, "iface": None, "attrs": [],
-                           "access": None, "doc": None}]}
+                "binds": [{"name": b_, "target": impl, "generic": False, "deferred": False, "iface": None, "attrs": [],
+                           "access": None, "doc": None} for b_ in ("run", "size", "write")]}
     if "type_bound" not in excl:
         lib["decls"].append(bound_type("inner_t", [_var("n", I)], "inner_run"))
         lib["decls"].append(bound_type("mid_t", [_var("inner", {"base": "type", "proto": "inner_t"})], "mid_run"))
